@@ -365,7 +365,12 @@ def run(ctx):
                 "action scripts on a real CoreState with secondary-stack capacities 0..3*slots+1 "
                 "and initializer capacities 1..1000; each failed interaction is checked in the "
                 "harness to be a no-op on the real track (energy, direction, position, status, "
-                "deposition, secondaries, stack size) and the dumps are diffed with the model",
+                "deposition, secondaries, stack size) and the dumps are diffed with the model; 1/5 "
+                "of the loop scripts hit the initializer capacity at requirement = capacity-1, "
+                "capacity, capacity+1 for insert and for the end-of-step action, and every "
+                "reported/absent capacity error is re-derived from the dump before the action "
+                "(error <=> requirement > capacity; Lean capacity_error_iff, "
+                "insert_capacity_error_iff)",
         "samples": [cov.get("stack_sample", [])],
         "correspondence_broken": broken,
     })
